@@ -10,11 +10,11 @@ import (
 	authtypes "github.com/cosmos/cosmos-sdk/x/auth/types"
 	banktypes "github.com/cosmos/cosmos-sdk/x/bank/types"
 
-	"github.com/regen-network/regen-ledger/x/ecocredit/v3/marketplace"
+	"github.com/regen-network/regen-ledger/x/data/v3"
 	basetypes "github.com/regen-network/regen-ledger/x/ecocredit/v3/base/types/v1"
 	baskettypes "github.com/regen-network/regen-ledger/x/ecocredit/v3/basket/types/v1"
+	"github.com/regen-network/regen-ledger/x/ecocredit/v3/marketplace"
 	markettypes "github.com/regen-network/regen-ledger/x/ecocredit/v3/marketplace/types/v1"
-	"github.com/regen-network/regen-ledger/x/data/v3"
 
 	"verifharness/chain"
 	"verifharness/eng"
@@ -91,10 +91,10 @@ func Genesis(app *chain.App, variant string) map[string]json.RawMessage {
 			{"abbreviation": "C", "name": "carbon", "unit": "metric ton CO2 equivalent", "precision": 6},
 			{"abbreviation": "CC", "name": "carbon2", "unit": "t", "precision": 6},
 			{"abbreviation": "B", "name": "bio", "unit": "ha", "precision": 6}})
-		set("regen.ecocredit.v1.Class", []m{{"key": 1, "id": "C09", "admin": admin.Bytes(), "metadata": "g", "credit_type_abbrev": "C"}})
+		set("regen.ecocredit.v1.Class", []interface{}{1, m{"key": 1, "id": "C09", "admin": admin.Bytes(), "metadata": "g", "credit_type_abbrev": "C"}})
 		set("regen.ecocredit.v1.ClassIssuer", []m{{"class_key": 1, "issuer": admin.Bytes()}, {"class_key": 1, "issuer": ActorAddr(1).Bytes()}})
 		set("regen.ecocredit.v1.ClassSequence", []m{{"credit_type_abbrev": "C", "next_sequence": 10}, {"credit_type_abbrev": "CC", "next_sequence": 99}})
-		set("regen.ecocredit.v1.Project", []m{{"key": 1, "id": "C09-099", "admin": admin.Bytes(), "class_key": 1, "jurisdiction": "US", "metadata": "p", "reference_id": ""}})
+		set("regen.ecocredit.v1.Project", []interface{}{1, m{"key": 1, "id": "C09-099", "admin": admin.Bytes(), "class_key": 1, "jurisdiction": "US", "metadata": "p", "reference_id": ""}})
 		set("regen.ecocredit.v1.ProjectSequence", []m{{"class_key": 1, "next_sequence": 100}})
 		set("regen.ecocredit.v1.BatchSequence", []m{{"project_key": 1, "next_sequence": 999}})
 	default:
